@@ -123,6 +123,12 @@ const (
 	allowedGroup  = "eng"
 )
 
+// AllowedGroup is the group the group-ruled upstreams of the fixture ask for.
+const AllowedGroup = allowedGroup
+
+// Slug is the provider slug of the fixture.
+const Slug = slug
+
 // HostFor maps a policy to the upstream configured with it.
 func HostFor(p Policy) string {
 	switch {
@@ -145,8 +151,20 @@ const skipRegexYAML = `
 
 // NewWorld builds the fixture.
 func NewWorld() (*World, error) {
+	fa := world.NewFakeAuth("proxy-client-id", "proxy-client-secret")
+	w, err := NewWorldProvider(fa.URL(), "")
+	if err != nil {
+		fa.Close()
+		return nil, err
+	}
+	w.FA = fa
+	return w, nil
+}
+
+// NewWorldProvider builds the proxy and its backends in front of the authenticator at providerURL (the address
+// browsers are sent to) / providerInt (the address of the back-channel, "" = the same).
+func NewWorldProvider(providerURL, providerInt string) (*World, error) {
 	w := &World{Backs: map[string]*world.Backend{}}
-	w.FA = world.NewFakeAuth("proxy-client-id", "proxy-client-secret")
 	var y strings.Builder
 	for _, h := range []string{hostEmail, hostGroup, hostBoth, hostOther, hostGroup2} {
 		b := world.NewBackend(h)
@@ -164,7 +182,7 @@ func NewWorld() (*World, error) {
 		}
 	}
 	p, err := world.NewProxy(world.ProxyOpts{
-		UpstreamYAML: y.String(), ProviderURL: w.FA.URL(), DefaultSlug: slug,
+		UpstreamYAML: y.String(), ProviderURL: providerURL, ProviderInt: providerInt, DefaultSlug: slug,
 		ValidK: ValidK, GraceK: GraceK, LifeK: LifeK, HTTPOnly: true,
 	})
 	if err != nil {
@@ -176,7 +194,9 @@ func NewWorld() (*World, error) {
 
 // Close releases the fixture.
 func (w *World) Close() {
-	w.FA.Close()
+	if w.FA != nil {
+		w.FA.Close()
+	}
 	for _, b := range w.Backs {
 		b.Close()
 	}
